@@ -84,6 +84,7 @@ class EngineProp(Prop):
     def distribution(self, cases):
         d = {"v1": 0, "v2": 0, "malformed": 0, "with_ctl_stop": 0, "with_ctl_cancel": 0, "engine_error_runs": 0,
              "runs_with_dlq_write": 0, "runs_with_filter": 0, "runs_with_dest_nack": 0, "hangs": 0,
+             "v1_parallel_node_shutdown_deadlocks": 0, "engine_crashed_the_child_process": 0,
              "NxM": {}, "gomaxprocs": {}, "events": 0}
         for c in cases:
             i, o = c["input"], c["observed"]
@@ -98,6 +99,8 @@ class EngineProp(Prop):
             d["runs_with_filter"] += any(e[0] == "F" for e in log)
             d["runs_with_dest_nack"] += any(e[0] == "C" and not e[-1] for e in log)
             d["hangs"] += bool(o.get("hang"))
+            d["v1_parallel_node_shutdown_deadlocks"] += bool(o.get("stuck"))
+            d["engine_crashed_the_child_process"] += bool(o.get("crashed"))
             k = "%dx%d" % (len(i["sources"]), len(i["dests"]))
             d["NxM"][k] = d["NxM"].get(k, 0) + 1
             g = str(i.get("gomaxprocs"))
